@@ -28,7 +28,9 @@ RULE = (
     "closed) and - for LocalHashFileDB - drawn objects made writable (intact but unprotected); optionally a "
     "tree of 8/12/16/20 files whose md5 starts with '00' (manufactured by a counter search, once per worker) so "
     "that the base class switches from traversal to per-object lookups and, at 16+, to per-prefix traversal; a "
-    "query of 2-8 ids drawn from the universe (present ids, absent ids, absent '00...' ids, an id of a directory "
+    "deliberate shape in about 1 case of 6: one store holds a closed copy of a tree minus a drawn non-empty subset "
+    "of its files (.dir kept), the other the complete tree (lacking side = destination, or mirrored = source), "
+    "queried expanded with only ids the lacking store has; otherwise a query of 2-8 ids drawn from the universe (present ids, absent ids, absent '00...' ids, an id of a directory "
     "that exists nowhere), shallow or expanded, jobs in {None,1,4}. Oracle: status(A), status(B) with index=None "
     "must return exists == Q & listing and missing == Q - listing where listing is os.walk of the store and Q the "
     "query expanded by the harness from its own manifests; compare_status(src=B, dest=A, check_deleted drawn) "
@@ -197,8 +199,17 @@ def cases(draw):
     if nz >= 16:
         # per-prefix traversal (255 listings) is slow: keep it a small class
         qmax = draw(st.sampled_from([4, 4, 4, 8]))
+    # deliberate shape (about 1 case in 6): one store holds a closed copy of a tree MINUS a non-empty subset of
+    # its files (the .dir object kept), the other the complete tree; the expanded query names only ids the
+    # lacking store has. "mirror": the lacking store is the source (B) instead of the destination (A).
+    shape = None
+    if draw(st.integers(0, 5)) == 0:
+        shape = {"top": draw(st.integers(0, 7)), "drop": draw(st.lists(st.integers(0, 7), min_size=1, max_size=3)),
+                 "mirror": draw(st.sampled_from([False, False, True])),
+                 "extra": draw(st.lists(st.integers(0, 31), max_size=2))}
     return {
         "half": "status",
+        "shape": shape,
         "trees": draw(st.lists(tree, min_size=1, max_size=3)),
         "loose": draw(st.lists(content, max_size=2)),
         "zeros": nz,
@@ -277,6 +288,18 @@ def run_status_case(case, ctx):  # noqa: C901, PLR0912, PLR0915
         odbs = [ops.make_odb(k, r) for k, r in zip(case["kinds"], roots)]
         _populate(w, odbs[0], roots[0], case["a"], bool(case["zeros"]))
         _populate(w, odbs[1], roots[1], case["b"], bool(case["zeros"]) and case["zeros_in_b"])
+        shape = case.get("shape")
+        if shape:
+            from dvc_data.hashfile.transfer import transfer
+
+            tops = [t for t in w.tops if t["isdir"] and not t["zeros"]]
+            t = tops[shape["top"] % len(tops)]
+            for odb in odbs:
+                transfer(w.cache, odb, set(hinfos(closed_ids(t))), shallow=True)
+            lacking = 1 if shape["mirror"] else 0
+            files = sorted(t["files"])
+            for i in shape["drop"]:
+                external_delete(roots[lacking], files[i % len(files)])
         # fresh store objects for the queries (as a new process would have)
         odbs = [ops.make_odb(k, r) for k, r in zip(case["kinds"], roots)]
 
@@ -289,6 +312,13 @@ def run_status_case(case, ctx):  # noqa: C901, PLR0912, PLR0915
         query = sorted({universe[i % len(universe)] for i in case["query"]}
                        | {udirs[i % len(udirs)] for i in case.get("qdirs", [])})
         shallow = case["shallow"]
+        if shape:
+            # expanded query of the directory plus ids the lacking store holds: every requested id is present
+            have = sorted(ref.store_ids(roots[lacking]) & set(w.all_ids))
+            query = sorted({t["oid"]} | {have[i % len(have)] for i in shape["extra"]})
+            query = [q for q in query if not q.endswith(".dir") or all(q in ref.store_ids(r) for r in roots)]
+            shallow = False
+            cl.append("shape:dir-minus-files" + (":src-lacks" if shape["mirror"] else ":dest-lacks"))
         if not shallow:
             query = [q for q in query if q != fake_dir]  # must be loadable to be expanded
         listing = [ref.store_ids(r) for r in roots]
